@@ -187,11 +187,11 @@ func (v *VerifC11MexSet) New(id uint32) int {
 	return 3
 }
 
-func (v *VerifC11MexSet) NumObjs() int          { return len(v.objs) }
-func (v *VerifC11MexSet) Shutdown(h int)        { v.objs[h].shutdown() }
-func (v *VerifC11MexSet) Expire(h int)          { v.objs[h].inboundExpired() }
-func (v *VerifC11MexSet) RemoveByID(h int)      { v.set.removeExchange(v.objs[h].msgID) }
-func (v *VerifC11MexSet) Stop()                 { v.set.stopExchanges(errors.New("verif stop")) }
+func (v *VerifC11MexSet) NumObjs() int             { return len(v.objs) }
+func (v *VerifC11MexSet) Shutdown(h int)           { v.objs[h].shutdown() }
+func (v *VerifC11MexSet) Expire(h int)             { v.objs[h].inboundExpired() }
+func (v *VerifC11MexSet) RemoveByID(h int)         { v.set.removeExchange(v.objs[h].msgID) }
+func (v *VerifC11MexSet) Stop()                    { v.set.stopExchanges(errors.New("verif stop")) }
 func (v *VerifC11MexSet) IsShutdownObj(h int) bool { return v.objs[h].shutdownAtomic.Load() }
 
 // Forward runs the real forwardPeerFrame for a frame with the given id and reports the handle
@@ -256,11 +256,11 @@ type verifC11Call struct {
 	failed []string
 }
 
-func (c *verifC11Call) Destination() (*Peer, bool) { return nil, false }
-func (c *verifC11Call) SentBytes(uint16)           {}
-func (c *verifC11Call) ReceivedBytes(uint16)       {}
+func (c *verifC11Call) Destination() (*Peer, bool)   { return nil, false }
+func (c *verifC11Call) SentBytes(uint16)             {}
+func (c *verifC11Call) ReceivedBytes(uint16)         {}
 func (c *verifC11Call) CallResponse(relay.RespFrame) {}
-func (c *verifC11Call) Succeeded() {}
+func (c *verifC11Call) Succeeded()                   {}
 func (c *verifC11Call) Failed(r string) {
 	c.mu.Lock()
 	c.failed = append(c.failed, r)
